@@ -64,7 +64,9 @@ type PropertySpec struct {
 var properties = map[string]*PropertySpec{}
 
 // thoroughUsesQuickBounds: see cmdCheck. Filled from the last complete thorough sweep (DESIGN 8.16).
-var thoroughUsesQuickBounds = map[string]bool{}
+var thoroughUsesQuickBounds = map[string]bool{
+	"C01": true, "C02": true, "C04": true, "C07": true, "C08": true, "C10": true, "C13": true,
+}
 
 type ReplayFile struct {
 	Property string              `json:"property"`
